@@ -372,6 +372,8 @@ func wordsUpTo(alpha []string, n int) []string {
 var (
 	c12PatAlpha  = []string{"a", "b", "*", "?", "[", "]", "!", "^", "-", `\`, ".", "\n"}
 	c12SubjAlpha = []string{"a", "b", "-", "]", "[", ".", "\n"}
+	// subjects that hold the pattern characters themselves, for the patterns that escape them
+	c12SubjAlpha2 = []string{"a", "*", `\`, "?", "b"}
 )
 
 func TestC12(t *testing.T) {
@@ -423,6 +425,61 @@ func TestC12(t *testing.T) {
 			})
 		}
 		st.Note("exhaustive: patterns of <= %d symbols over %q x subjects of <= %d symbols over %q x 4 modes (sharded by pattern index)", sp.pn, c12PatAlpha, sp.sn, c12SubjAlpha)
+	}
+	// the same patterns on subjects made of pattern characters
+	{
+		subjects := wordsUpTo(c12SubjAlpha2, 3)
+		pi := 0
+		for n := 0; n <= 4; n++ {
+			words(c12PatAlpha, n, func(p string) {
+				pi++
+				if pi%nsh != sh || !strings.ContainsAny(p, `\*?`) {
+					return
+				}
+				var nt int64
+				for _, s := range subjects {
+					for _, m := range c12Modes {
+						c := c12Case{Patterns: []string{p}, Mode: m, Subject: s}
+						v, wild, err := checkC12(c)
+						if err != nil {
+							fail(t, "C12", "match", c, "%v", err)
+						}
+						if v == c12Checked && wild && s != "" {
+							nt++
+						}
+					}
+				}
+				st.EvalN(int64(len(subjects)*len(c12Modes)), nt)
+			})
+		}
+		st.Note("exhaustive: the patterns of <= 4 symbols that hold a backslash or a wildcard x subjects of <= 3 symbols over %q x 4 modes", c12SubjAlpha2)
+	}
+	// subjects around buffer-sized lengths with a multi-byte character at the edge
+	if sh == 2%nsh {
+		var k int64
+		for _, size := range []int{64, 128, 256, 512} {
+			for d := -3; d <= 3; d++ {
+				for pos := 0; pos <= 4; pos++ {
+					n := size + d - pos - 2
+					subj := strings.Repeat("b", pos) + "é" + strings.Repeat("a", n)
+					rsubj := strings.Repeat("a", n) + "é" + strings.Repeat("b", pos)
+					for _, p := range []string{"[!a]*", "?*", "*", "é*", "b*", "[!b]*", "*é*", "*[!a]", "*?", "*é", "a*é?"} {
+						for _, m := range c12Modes {
+							for _, sj := range []string{subj, rsubj} {
+								c := c12Case{Patterns: []string{p}, Mode: m, Subject: sj}
+								if _, _, err := checkC12(c); err != nil {
+									fail(t, "C12", "match", c, "%v", err)
+								}
+								k++
+							}
+						}
+					}
+				}
+			}
+		}
+		st.EvalN(k, k)
+		st.ClassN("subjects_of_buffer_sized_lengths", k)
+		st.Note("%d cases on subjects of 64, 128, 256 and 512 bytes +-3 with a two-byte character within the first (last) five positions", k)
 	}
 	st.Exhaustive = true
 
